@@ -152,9 +152,64 @@ fn huge_liquidity(run: &Run, thorough: bool) {
     println!("  scenario custom02-huge-liquidity: depth {} states {} transitions {}", st.depth_completed, st.states, st.transitions);
 }
 
+/// A pool created with lopsided reserves (2^120 against 1) and then given a deposit of 2^120 on both sides: the liquidity minted
+/// for the second deposit, 2^120 x sqrt(2^240 / 2^120), does not fit 128 bits.  Every liquidity token handed out must still be
+/// backed by the pool's record.
+pub fn lopsided_huge_pool(run: &Run) {
+    use melstructs::TxKind;
+    let big: u128 = 1 << 120;
+    let (_w, rootn) = root(NetID::Custom02, 0, false);
+    let eng = Engine::new(run);
+    let fund = tx_t(TxKind::Faucet, vec![], vec![out_t(big, Denom::Mel), out_t(big, Denom::Mel), out_t(5000, Denom::Mel), out_t(5001, Denom::Mel), out_t(5002, Denom::Mel)], 0, vec![0x10, 0x9d]);
+    let mint = tx_t(TxKind::Normal, vec![fund.output_coinid(2)], vec![out_t(5000, Denom::Mel), out_t(1, Denom::NewCustom), out_t(big, Denom::NewCustom), out_t(big, Denom::NewCustom)], 0, vec![0x9e]);
+    let token = Denom::Custom(mint.hash_nosigs());
+    let pool = PoolKey::new(Denom::Mel, token);
+    let dep_a = tx_t(TxKind::LiqDeposit, vec![fund.output_coinid(0), mint.output_coinid(1)], vec![out_t(big, Denom::Mel), out_t(1, token)], 0, pool.to_bytes().to_vec());
+    let dep_b = tx_t(TxKind::LiqDeposit, vec![fund.output_coinid(1), mint.output_coinid(2)], vec![out_t(big, Denom::Mel), out_t(big, token)], 0, pool.to_bytes().to_vec());
+    let liq = pool.liq_token_denom();
+    let script: Vec<Action> = vec![
+        Action::Open,
+        Action::Batch { label: "faucet of two coins of 2^120 MEL".into(), txs: vec![fund.clone()], expect_ok: true },
+        Action::Batch { label: "mint of a token: coins of 1, 2^120 and 2^120".into(), txs: vec![mint.clone()], expect_ok: true },
+        Action::Seal(None),
+        Action::Open,
+        Action::Batch { label: "deposit of 2^120 MEL against 1 token (creates the pool)".into(), txs: vec![dep_a.clone()], expect_ok: true },
+        Action::Seal(None),
+        Action::Open,
+        Action::Batch { label: "deposit of 2^120 MEL and 2^120 tokens".into(), txs: vec![dep_b.clone()], expect_ok: true },
+        Action::Seal(None),
+        Action::Open,
+        // the first provider redeems; then the second one
+        Action::Batch { label: "first provider withdraws its 2^120 liquidity tokens".into(), txs: vec![tx_t(TxKind::LiqWithdraw, vec![dep_a.output_coinid(0), fund.output_coinid(3)], vec![out_t(big, liq), out_t(5001, Denom::Mel)], 0, pool.to_bytes().to_vec())], expect_ok: true },
+        Action::Seal(None),
+        Action::Open,
+        Action::Seal(None),
+    ];
+    let mut node = rootn;
+    let mut taken = 0;
+    for a in &script {
+        match eng.step(&node, a) {
+            StepOut::Next(n) => {
+                node = n;
+                taken += 1;
+            }
+            StepOut::Rejected => run.outcome(&format!("lopsided-huge-pool:step-refused:{}", a.label())),
+            StepOut::Pruned => {
+                run.outcome("lopsided-huge-pool:engine-reported");
+                break;
+            }
+        }
+    }
+    run.states_add(taken);
+    let p = node.model.pools.get(&pool).map(|p| json!({"lefts": p.lefts.to_string(), "rights": p.rights.to_string(), "liqs": p.liqs.to_string()}));
+    run.set("scenario:lopsided-huge-pool", json!({"steps_taken": taken, "of": script.len(), "pool_at_the_end": p}));
+    println!("  scenario lopsided-huge-pool: {} of {} steps", taken, script.len());
+}
+
 pub fn run(run: &Run) {
     long_histories(run, run.thorough());
     huge_liquidity(run, run.thorough());
+    lopsided_huge_pool(run);
     unissued_liquidity_tokens(run, run.thorough());
     custom_pool_withdrawals(run, run.thorough());
     for sc in scenarios(run.thorough()) {
